@@ -22,7 +22,7 @@ TECHNIQUE = 'inverse-physical-law oracle over random parameter sets, per-branch 
 RULE = ('parameter sets over physical ranges x 25 points each; non-trivial = set exercising a non-default branch (lead != 0, T < 0, initial '
         'voltage != 0, gain != 1, voltage excitation); distinct = rounded parameter tuple')
 ASSUMPTIONS = ['tolerance 1e-6 relative with a 1e-9 absolute floor near zero']
-REQUIRED = ['single_precision_points', 'rtd_cross_object_points', 'purity_calls', 'rtd_points', 'rtd_branch_point_sets', 'rtd_quartic_points', 'thermistor_points', 'strain_points', 'poly_points', 'table_points', 'through_channel',
+REQUIRED = ['input_dtype_independence_calls', 'single_precision_points', 'rtd_cross_object_points', 'purity_calls', 'rtd_points', 'rtd_branch_point_sets', 'rtd_quartic_points', 'thermistor_points', 'strain_points', 'poly_points', 'table_points', 'through_channel',
             'branch:rtd:2-wire', 'branch:rtd:3-wire', 'branch:rtd:4-wire', 'branch:thermistor:current', 'branch:thermistor:voltage'] + \
            ['branch:strain:%d' % c for c in (10183, 10184, 10185, 10188, 10189, 10271, 10272)]
 N = {'quick': 9600, 'thorough': 3000000}
@@ -54,6 +54,22 @@ def pure_call(ctx, sc, volts, label):
     if np.array(r1, dtype='f8').tobytes() != keep1:
         ctx.violation('%s/earlier-result-overwritten-by-later-call' % label, {'scaling': type(sc).__name__})
     ctx.count('purity_calls')
+    # the raw data type must not matter: float32 (and integer) input gives what the same values give as float64
+    for dt_ in ('f4', 'i4'):
+        xin = np.array(volts, dtype='f8').astype(dt_) if dt_ == 'f4' else np.round(np.array(volts, dtype='f8') * 1000).astype(dt_)
+        if dt_ == 'i4' and label != 'rtd':
+            continue
+        try:
+            with np.errstate(all='ignore'):
+                lo_ = np.asarray(sc.scale(xin.copy()))
+                hi_ = np.asarray(sc.scale(xin.astype('f8')))
+            ctx.count('input_dtype_independence_calls')
+            finite = np.isfinite(hi_)
+            if lo_.dtype != np.dtype('f8') or not np.allclose(lo_[finite], hi_[finite], rtol=1e-9, atol=1e-12):
+                ctx.violation('%s/result-depends-on-raw-data-type/%s' % (label, dt_), {'scaling': type(sc).__name__, 'dtype': str(lo_.dtype),
+                                                                                 'max_rel': float(np.nanmax(np.abs(lo_[finite] - hi_[finite]) / (np.abs(hi_[finite]) + 1e-300))) if finite.any() else None})
+        except ValueError:
+            pass       # e.g. RTD root selection on out-of-range integer volts: judged elsewhere
     if changed or x.tobytes() != keep:
         ctx.violation('%s/scale-modifies-its-input' % label, {'scaling': type(sc).__name__})
     elif not np.array_equal(first, second, equal_nan=True):
